@@ -1144,6 +1144,37 @@ func (e *Env) RunC09(c *Case) (out *Out) {
 			}
 		}
 	}
+	// clones of (frozen) dictionary structs held by the record: a clone is a mutable, independent value;
+	// setting it to the value the next record holds in that field must not change the original
+	rst := &e.Sch.Structs[rootT.ID]
+	for i := range objs {
+		nxt, _ := c.Vals[(i+1)%n].([]any)
+		for fi := range rst.Fields {
+			f := &rst.Fields[fi]
+			setter := objs[i].MethodByName("Set" + up(f.Name))
+			if f.Type.K != "struct" || !setter.IsValid() || setter.Type().NumIn() != 1 || setter.Type().In(0).Kind() != reflect.Ptr || fi >= len(nxt) || nxt[fi] == nil {
+				continue
+			}
+			orig := call(objs[i], up(f.Name))[0]
+			cm := orig.MethodByName("Clone")
+			if orig.Kind() != reflect.Ptr || orig.IsNil() || !cm.IsValid() || cm.Type().NumIn() != 1 {
+				continue
+			}
+			var b0, b1, b2 strings.Builder
+			e.dump(&f.Type, orig, &b0)
+			cl := cm.Call([]reflect.Value{reflect.New(cm.Type().In(0).Elem())})[0]
+			e.dump(&f.Type, cl, &b1)
+			if b1.String() != b0.String() {
+				pre[i] += fmt.Sprintf("Clone of field %s differs from the original (%s vs %s);", f.Name, diffAt(b1.String(), b0.String()), diffAt(b0.String(), b1.String()))
+			}
+			e.lastArr = nil
+			e.set(&f.Type, cl, nxt[fi], &setOpts{})
+			e.dump(&f.Type, orig, &b2)
+			if b2.String() != b0.String() {
+				pre[i] += fmt.Sprintf("mutating the clone of field %s changed the original (%s vs %s);", f.Name, diffAt(b2.String(), b0.String()), diffAt(b0.String(), b2.String()))
+			}
+		}
+	}
 	for i := range objs {
 		msg := pre[i]
 		src := objs[i]
